@@ -445,6 +445,22 @@ class EvalMixin(object):
                         "==": n == c}[t[1]]
             except Exception:
                 pass
+        if k == "cmp" and t[2][0] == "call" and t[2][1] == "len" and is_const(t[3]) \
+                and t[1] in (">", ">="):
+            # len(filter over rows) <= number of rows, when that is known
+            inner = t[2][2][0]
+            while inner[0] == "call" and inner[1] in ("list", "sorted", "set", "tuple") \
+                    and inner[2]:
+                inner = inner[2][0]
+            if inner[0] == "comp":
+                src = inner[3]
+                while src[0] == "call" and src[1] in ("list", "sorted", "tuple") and src[2]:
+                    src = src[2][0]
+                if src[0] == "rows" and ("len", src) in state.facts:
+                    n = state.facts[("len", src)]
+                    c = t[3][1]
+                    if (t[1] == ">" and n <= c) or (t[1] == ">=" and n < c):
+                        return False
         if k == "cmp" and t[1] == "in" and t[3][0] == "reg":
             if (t[3], t[2]) in state.regs:
                 return True
